@@ -453,12 +453,12 @@ pub fn run_a(seed: u64, iters: u64, sum: &mut Summary) {
             Ok(o) => o,
             Err(p) => {
                 let msg = known::panic_text(p);
-                sum.violation(Violation {
+                known::push_violation(sum, Violation {
                     property: "C19".into(),
                     signature: format!("c19a:panic:{}", known::panic_sig(&msg)),
                     what: format!("receiver::State panicked: {msg}"),
                     replay: json!({"check":"c19","mode":"a","seed":seed,"case":case,"ids":ids}),
-                });
+                }, 3);
                 continue;
             }
         };
@@ -489,12 +489,12 @@ pub fn run_a(seed: u64, iters: u64, sum: &mut Summary) {
         }
         if let Some((sig, what, at)) = out.violation {
             let upto: Vec<u64> = ids[..=at].to_vec();
-            sum.violation(Violation {
+            known::push_violation(sum, Violation {
                 property: "C19".into(),
                 signature: sig,
                 what: format!("{what} (sequence index {at})"),
                 replay: json!({"check":"c19","mode":"a","seed":seed,"case":case,"ids":upto}),
-            });
+            }, 3);
         }
     }
 }
@@ -705,23 +705,23 @@ pub fn run_b(seed: u64, rounds: u64, threads_arg: u64, sum: &mut Summary) {
                     sum.trivial += 1;
                 }
                 if let Some((sig, what)) = v {
-                    sum.violation(Violation {
+                    known::push_violation(sum, Violation {
                         property: "C19".into(),
                         signature: sig,
                         what,
                         replay: json!({"check":"c19","mode":"b","seed":seed,"case":case,"round":round_b_json(&round),
                             "note":"thread interleaving is not reproducible; replay repeats the round 2000 times"}),
-                    });
+                    }, 3);
                 }
             }
             Err(p) => {
                 let msg = known::panic_text(p);
-                sum.violation(Violation {
+                known::push_violation(sum, Violation {
                     property: "C19".into(),
                     signature: format!("c19b:panic:{}", known::panic_sig(&msg)),
                     what: format!("panic in concurrent receiver round: {msg}"),
                     replay: json!({"check":"c19","mode":"b","seed":seed,"case":case,"round":round_b_json(&round)}),
-                });
+                }, 3);
             }
         }
     }
@@ -994,23 +994,23 @@ pub fn run_c(seed: u64, rounds: u64, threads_arg: u64, sum: &mut Summary) {
                     sum.trivial += 1;
                 }
                 if let Some((sig, what)) = v {
-                    sum.violation(Violation {
+                    known::push_violation(sum, Violation {
                         property: "C19".into(),
                         signature: sig,
                         what,
                         replay: json!({"check":"c19","mode":"c","seed":seed,"case":case,"round":round_c_json(&round),
                             "note":"thread interleaving is not reproducible; replay repeats the round 2000 times"}),
-                    });
+                    }, 3);
                 }
             }
             Err(p) => {
                 let msg = known::panic_text(p);
-                sum.violation(Violation {
+                known::push_violation(sum, Violation {
                     property: "C19".into(),
                     signature: format!("c19c:panic:{}", known::panic_sig(&msg)),
                     what: format!("panic in sender round: {msg}"),
                     replay: json!({"check":"c19","mode":"c","seed":seed,"case":case,"round":round_c_json(&round)}),
-                });
+                }, 3);
             }
         }
     }
@@ -1046,7 +1046,7 @@ pub fn replay(r: &Value, sum: &mut Summary) {
             let out = run_sequence(&ids, true);
             sum.evaluations += 1;
             if let Some((sig, what, at)) = out.violation {
-                sum.violation(Violation { property: "C19".into(), signature: sig, what: format!("{what} (sequence index {at})"), replay: r.clone() });
+                known::push_violation(sum, Violation { property: "C19".into(), signature: sig, what: format!("{what} (sequence index {at})"), replay: r.clone() }, 3);
             }
         }
         "b" => {
@@ -1058,7 +1058,7 @@ pub fn replay(r: &Value, sum: &mut Summary) {
                 let (v, _, _) = run_round_b(&round, i == 0);
                 sum.evaluations += 1;
                 if let Some((sig, what)) = v {
-                    sum.violation(Violation { property: "C19".into(), signature: sig, what: format!("{what} (repeat {i})"), replay: r.clone() });
+                    known::push_violation(sum, Violation { property: "C19".into(), signature: sig, what: format!("{what} (repeat {i})"), replay: r.clone() }, 3);
                     break;
                 }
             }
@@ -1083,7 +1083,7 @@ pub fn replay(r: &Value, sum: &mut Summary) {
                 let (v, _, _) = run_round_c(&round, &map, peer_addr, i == 0);
                 sum.evaluations += 1;
                 if let Some((sig, what)) = v {
-                    sum.violation(Violation { property: "C19".into(), signature: sig, what: format!("{what} (repeat {i})"), replay: r.clone() });
+                    known::push_violation(sum, Violation { property: "C19".into(), signature: sig, what: format!("{what} (repeat {i})"), replay: r.clone() }, 3);
                     break;
                 }
             }
